@@ -24,7 +24,7 @@ ASSUMPTIONS = ["schedules are produced by sleeping inside the worker before the 
 TIMEOUT = {"quick": 1200, "thorough": 2400}
 MIN_NONTRIVIAL = {"quick": 8, "thorough": 60}
 REQUIRED_COUNTERS = ["parallel_runs", "worker_pids_seen", "reordered_completions"]
-NDIRS = 40
+NDIRS = 30
 JOBS = 6  # each case itself starts up to 8 worker processes
 
 
